@@ -5,6 +5,7 @@ import (
 	"fmt"
 	"sort"
 	"strings"
+	"sync"
 
 	wire "github.com/jeroenrinzema/psql-wire"
 	"github.com/jeroenrinzema/psql-wire/pkg/buffer"
@@ -19,9 +20,9 @@ import (
 type c17 struct{ base }
 
 func init() {
-	core.Register(c17{base{id: "C17", level: "exploration", quickB: 8, thoroughB: 32,
+	core.Register(c17{base{id: "C17", level: "exploration", race: true, quickB: 8, thoroughB: 32,
 		rule:        "errors are built from a spec (base text + wrappers innermost-first over {WithCode, WithSeverity, WithHint, WithDetail, WithSource, WithConstraintName, fmt %w}); the flattening model computes the expected fields (outermost value, defaults ERROR/XXUUU, message = Go error text); each error is returned from a parser (simple Query and Parse) or a statement function (simple Query and Execute) and the ErrorResponse is parsed strictly and compared field for field. shared sentinel values (one built error decorated further by several reports and also reported as is) must keep their own fields; quick: exhaustive over all wrapper sequences up to depth 4 x 2 value variants + random depth <= 6; thorough: exhaustive depth 5 + 500k random depth <= 8. Non-trivial = at least two wrappers of which one repeats or is fmt-wrap/source/constraint; distinct = wrapper-kind sequence + context.",
-		need:        []string{"error_responses_compared", "with_source", "with_constraint", "repeated_decorator", "nil_error_reports", "empty_message_errors", "shared_sentinel_reports"},
+		need:        []string{"error_responses_compared", "with_source", "with_constraint", "repeated_decorator", "nil_error_reports", "empty_message_errors", "shared_sentinel_reports", "errors_reported_by_several_connections_at_once"},
 		assumptions: append([]string{"hint, detail, constraint, code and severity values are non-empty NUL-free strings (an empty hint/detail is indistinguishable from 'not set' in the API); the error text and the source file/function may be empty and must still be sent as (empty) fields; a 'V' (non-localised severity) field equal to S is tolerated"}, commonAssumptions...)}})
 }
 
@@ -263,6 +264,57 @@ func (ch c17) Run(c *core.Ctx) {
 	}
 	if cl != nil {
 		cl.Finish()
+	}
+	// several connections report errors at the same moment: same severity, every connection its own code,
+	// hint and text. What a client reads are the decorations of its own error (and the race detector watches
+	// what the reports share)
+	if c.Begin(21000000) && c.NViol() < 10 {
+		const peers = 8
+		rounds := 150
+		if c.Tier == "thorough" {
+			rounds = 4000
+		}
+		sev := c17sev[c.Batch%len(c17sev)]
+		var wg sync.WaitGroup
+		start := make(chan struct{})
+		for g := 0; g < peers; g++ {
+			wg.Add(1)
+			go func(g int) {
+				defer wg.Done()
+				psess := &hs.Sess{Progs: map[string]*hs.Prog{}}
+				pcl := hs.NewClient(env.Dial(psess))
+				if err := pcl.StartupOK("u"); err != nil {
+					c.Violate("startup", "startup failed", err.Error(), nil)
+					return
+				}
+				code := c17codes[g%len(c17codes)]
+				spec := &hs.ErrSpec{Base: fmt.Sprintf("error of peer %d", g), Wraps: []hs.Wrap{{K: 'c', S: code}, {K: 's', S: sev}, {K: 'h', S: fmt.Sprintf("hint of peer %d", g)}}}
+				psess.Progs["fails"] = &hs.Prog{Stmts: []*hs.Stmt{{ID: "fails", Ops: []hs.Op{{K: "err", Err: spec}}}}}
+				<-start
+				for r := 0; r < rounds && c.NViol() < 10; r++ {
+					out, closed := pcl.Step(pg.Query("fails"))
+					if pcl.Hung {
+						return
+					}
+					msgs, err := parseAll(out)
+					cs := map[string]any{"spec": spec.String(), "context": "eight connections reporting at once"}
+					if err != nil || len(msgs) == 0 || msgs[0].T != 'E' {
+						if !(closed && (sev == "FATAL" || sev == "PANIC")) || err != nil {
+							c.Violate("transcript", "error cycle transcript under concurrency", fmt.Sprintf("spec %s: %v closed=%v reply %s", spec, err, closed, pg.Types(msgs)), cs)
+						}
+						return
+					}
+					ch.compare(c, spec, msgs[0], cs)
+					c.Count("errors_reported_by_several_connections_at_once", 1)
+					if closed {
+						return
+					}
+				}
+				pcl.Finish()
+			}(g)
+		}
+		close(start)
+		wg.Wait()
 	}
 	// nil error through the public ErrorCode entry point
 	if c.Batch == 0 && c.Begin(20000000) {
